@@ -63,6 +63,8 @@ def havoc_value(sx, rec, old, ty, label):
                                for i, f in enumerate(old[1])))
     if old[0] == 'ref':
         return old  # references are loop invariant in safe code unless reassigned; checked below
+    if ty is None and old[0] == 'int':
+        ty = {'s': 'usize', 'k': 'usize'}   # a carried integer (counter) stays an integer
     s = sx.named('L%d.%s' % (rec['id'], label), ty)
     rec['havoc_syms'].append(s)
     return s
